@@ -29,6 +29,10 @@ EmitFilter ==
   \/ \E f \in FilterSteps, s \in {BrW, Dot(ka), DotW} : Out(Sel(<<Root, s, f>>, doc, NoArg))
   \/ \E f \in FilterSteps, s \in {BrW, Dot(ka), Dot(kb), Dot(kab), Idx(<<AiI(IxN(0))>>)} : Out(Sel(<<Root, BrW, f, s>>, doc, NoArg))
   \/ \E f \in {FilterSt(c1), FilterSt(c2)}, g \in {FilterSt(c3), FilterSt(EExists(<<Cur, Dot(kb)>>))} : Out(Sel(<<Root, BrW, f, g>>, doc, NoArg))
+  \* filter, navigation, filter: the first item the earlier filter keeps may be dropped later on
+  \/ \E f \in {FilterSt(c1), FilterSt(c2), FilterSt(EExists(<<Cur, Dot(ka)>>))}, s \in {Dot(kb), Dot(ka)},
+        g \in {FilterSt(EBin("eq", EPaths(<<Cur>>), EVal(PStr(sab.s)))), FilterSt(EBin("gt", EPaths(<<Cur>>), EVal(PNum(u1))))} :
+        Out(Sel(<<Root, BrW, f, s, g>>, doc, NoArg))
 EmitPred ==
   \/ \E e \in {EBin(op, EPaths(l), EVal(v)) : op \in {"eq", "gt", "ne"}, l \in {<<Root>>, <<Root, Dot(ka)>>, <<Root, BrW, Dot(ka)>>, <<Root, BrW>>},
                                               v \in {PNum(u1), PStr(sab.s), PNull}}
